@@ -51,6 +51,16 @@ func act(id string, args ...interface{}) error {
 		line += " " + fmt.Sprintf("%T:%q", a, fmt.Sprint(a))
 	}
 	fmt.Println(line)
+	if e := os.Getenv("VERIF_ECHO"); e != "" {
+		// VERIF_ECHO=<variable>:<out|err>  every body prints the value of that environment variable in the middle of
+		// other output before it acts
+		ne := strings.SplitN(e, ":", 2)
+		w := os.Stdout
+		if len(ne) > 1 && ne[1] == "err" {
+			w = os.Stderr
+		}
+		fmt.Fprintf(w, "ECHO-BEGIN %s\nconnecting with %s=%s to the service, please wait\nECHO-END %s\n", id, ne[0], os.Getenv(ne[0]), id)
+	}
 	if n := os.Getenv("VERIF_NOISE"); n != "" && strings.Contains(";"+os.Getenv("VERIF_SCEN"), ";"+id+"=") {
 		emitNoise(n) // what a body prints before it fails
 	}
@@ -995,6 +1005,19 @@ def line_cases(ctx):
             l["noise"] = noise
             l["routes"] = "all"
             lines.append(l)
+    # a credential-looking environment variable whose VALUE a body prints (in the middle of other output, on stdout or
+    # stderr) before it completes / fails: status, message and the complete output per the model, all three routes
+    kinds_cycle = ["none", "error", "fatal", "sh", "deps-diff", "panic-string", "none", "fatalf", "osexit"]
+    k = 0
+    for var, val in (("DEPLOY_TOKEN", "tok-3f9a7c21e5"), ("API_KEY", "AKIA1234567890"), ("DB_PASSWORD", "hunter2hunter2"), ("MY_SECRET", "s3cr3t-value")):
+        for stream in ("out", "err"):
+            for _ in range(3):
+                l = gen_line(rng, kinds_cycle[k % len(kinds_cycle)], rng.choice([7, 3, 200]))
+                k += 1
+                l["echo_env"] = {var: val, "VERIF_ECHO": "%s:%s" % (var, stream)}
+                l["echo"] = [var, val, stream]
+                l["routes"] = "all"
+                lines.append(l)
     # error value shapes: as a target's result, as a dependency's result (alone / next to an mg.Fatal(3)), returned or
     # as an error-valued panic
     for shape in ALL_SHAPES:
@@ -1050,7 +1073,7 @@ def line_to_cases(ctx, l, idx):
         routes = ["mage", "hash"]       # a -compile'd binary killed by a signal has no exit status to look at
     for r in routes:
         c = dict(l)
-        c.update(route=r, proj="main", args=list(l["words"]), env=dict(({"VERIF_MSG": l["msg"]} if l.get("msg") else ({"VERIF_TEXT": l["text"]} if l.get("text") else {})), **({"VERIF_NOISE": l["noise"]} if l.get("noise") else {})), want=({"exit": want[0], "ran": want[1], "tokens": want[2]} if decided else None),
+        c.update(route=r, proj="main", args=list(l["words"]), env=dict(({"VERIF_MSG": l["msg"]} if l.get("msg") else ({"VERIF_TEXT": l["text"]} if l.get("text") else {})), **dict(({"VERIF_NOISE": l["noise"]} if l.get("noise") else {}), **(l.get("echo_env") or {}))), want=({"exit": want[0], "ran": want[1], "tokens": want[2]} if decided else None),
                  scen=scen(fa=fargs(nargs=len(l["words"]), hashfast=(r == "hash")), pr=prog(mentions=ments), child=("signaled" if killed else None)), line=idx)
         out.append(c)
     return out
@@ -1523,6 +1546,10 @@ def exec_case(slot, c):
         note["cache_left"] = os.listdir(cache)
     leftovers = [f for f in os.listdir(slot.dir) if f.startswith("mage_output_file")]
     started = [l.split()[1] for l in out.splitlines() if l.startswith("CALL ") and len(l.split()) > 1]
+    if c.get("echo"):
+        var, val, stream = c["echo"]
+        text = out if stream == "out" else err
+        note["echo_missing"] = [sid for sid in started if ("ECHO-END %s\n" % sid) not in text or ("%s=%s to the service" % (var, val)) not in text]
     projects = sorted(set(t[5:] for l in out.splitlines() if l.startswith("CALL ") for t in l.split()[2:] if t.startswith("proj=")))
     # the failure tokens are looked for in ALL of stderr: with long failure texts and several failing members the order of
     # the messages is the completion order, so a token may stand far from the end (a tail-only search raised a false alarm once)
@@ -1545,6 +1572,8 @@ def judge(c, ob):
             bad.append(("exit-status", "exit status 0 although the command failed"))
     elif ob["rc"] != w["exit"]:
         bad.append(("exit-status", "exit status %d, the property sentence says %d" % (ob["rc"], w["exit"])))
+    if ob["note"].get("echo_missing"):
+        bad.append(("output-complete", "the output of %s (the value of %s and the lines after it) did not arrive" % (ob["note"]["echo_missing"], c["echo"][0])))
     if w.get("projects") is not None and ob.get("projects") != w["projects"]:
         bad.append(("wrong-project-ran", "bodies of project(s) %s ran (CALL lines: %s), expected %s" % (ob.get("projects"), ob["started"], w["projects"] or "none")))
     dup = sorted(set(x for x in ob["started"] if ob["started"].count(x) > 1))
